@@ -39,8 +39,72 @@ def canary_early(traces):
                 return c, 'success reply sent before the (slow) write completed'
 
 
+EHD_CFG = """SPECIFICATION TSpec
+CONSTANTS
+  N = %d
+  Proxy = %s
+  KF_FirstOnly = FALSE
+  KF_EarlyAck = FALSE
+INVARIANT Watch
+POSTCONDITION Post
+CHECK_DEADLOCK FALSE
+"""
+
+
+def handoff_validation(extra_cov):
+    """hand-offs of one client message, validated as behaviours of the design model EdgeHandoff itself (spec/Trace_EdgeD.tla)"""
+    from .. import dtrace
+    from ..common import MachineryError
+
+    def post(oc, traces, summaries):
+        groups, owner = {}, {}
+        for tr in traces:
+            cfg = tr.get('cfg') or {}
+            if cfg.get('nsess', 1) != 1 or 'nenv' not in cfg:
+                continue
+            ev = [e for e in tr['ev'] if e['t'] in ('write_start', 'write_end', 'relay', 'reply')]
+            if not ev:
+                continue
+            key = (max(1, int(cfg['nenv'])), bool(cfg.get('proxy')))
+            g = groups.setdefault(key, (EHD_CFG % (key[0], 'TRUE' if key[1] else 'FALSE'), []))
+            g[1].append({'id': tr['id'], 'ev': ev})
+            owner[tr['id']] = tr
+        if not groups:
+            return
+        can = None
+        for key, (cfg_text, trs) in sorted(groups.items()):         # binding canary: a 2xx reply moved in front of the end of the last write
+            for t in trs:
+                ks = [i for i, e in enumerate(t['ev']) if e['t'] == 'reply' and 200 <= e['code'] < 300]
+                ws = [i for i, e in enumerate(t['ev']) if e['t'] == 'write_end']
+                if not key[1] and ks and ws and ws[-1] < ks[0]:
+                    can = copy.deepcopy(t)
+                    can['id'] = max(owner) + 1
+                    can['ev'].insert(ws[-1], can['ev'].pop(ks[0]))
+                    trs.append(can)
+                    break
+            if can:
+                break
+        r = dtrace.validate('Trace_EdgeD', groups, 'edged', per_shard=200)
+        ver = r['verdicts']
+        can_ok = bool(can) and ver.pop(can['id'])[0] == 'OK'
+        drift, samples = {}, []
+        for tid, (v, d) in sorted(ver.items()):
+            if v != 'OK':
+                c = owner[tid].get('cls', 'any')
+                drift[c] = drift.get(c, 0) + 1
+                if len(samples) < 3:
+                    samples.append({'trace_id': tid, 'cls': c, 'verdict': v, 'detail': d})
+        if can_ok and not drift and not oc.violations:
+            raise MachineryError('binding canary accepted by Trace_EdgeD: a 2xx reply before the last write ended')
+        extra_cov['design_model_validation'] = {
+            'module': 'Trace_EdgeD (EXTENDS EdgeHandoff)', 'traces': len(ver), 'accepted': sum(1 for v in ver.values() if v[0] == 'OK'),
+            'drift': drift, 'tlc_states': r['states'], 'wall_s': r['wall_s'], 'canary_rejected': bool(can) and not can_ok, 'drift_samples': samples}
+    return post
+
+
 def run(tier):
     wd = workdir('C02')
+    extra_cov = {'exhaustive': True}
     mc = []
     for n in (1, 2, 3):
         mc.append({'name': 'EdgeHandoff N=%d' % n, 'module': 'EdgeHandoff', 'cfg': flow.write_cfg(wd, 'eh_%d.cfg' % n, EH_CFG % (n, 'FALSE', 'FALSE', 'FALSE'))})
@@ -87,7 +151,7 @@ CHECK_DEADLOCK FALSE
         assumptions=['a foreign (non-QueueError) storage exception may be answered by any 4xx/5xx reply or by closing the session'],
         trusted=['TLC 1.8', 'CommunityModules Json/IOUtils', 'harness/drivers/c02.py', 'harness/sdrv.py (in-memory socket)'],
         extras=[{'driver': 'c02w', 'module': 'Trace_WsgiEdge', 'cfg': 'Trace_WsgiEdge.cfg'}],
-        wd=wd, extra_cov={'exhaustive': True})
+        wd=wd, extra_cov=extra_cov, post=handoff_validation(extra_cov))
 
 
 def replay(path):
